@@ -480,24 +480,38 @@ FamCall(f) ==
 (* the trailer after a probe p: nothing, or the same item again and then the helper call  *)
 Again(f, p) == <<p, p>> \o FamCall(f)
 
-SeqSc(cfg, items) == [mode |-> "seq", cfg |-> cfg, items |-> items]
+(* setup = the number of leading items that are the setup: the application actions among    *)
+(* them must really establish the state the generator means (the driver reports whether they  *)
+(* did; the trace specification requires it)                                                  *)
+SeqSc(cfg, setup, items) == [mode |-> "seq", cfg |-> cfg, setup |-> setup, items |-> items]
 SingleLabels == Labels \ {x.lab : x \in AckStanzas}
-Singles == {SeqSc(c, <<l>>) : l \in SingleLabels, c \in StateCfgs}
-NoListen == {SeqSc("nolisten", <<l>>) : l \in {Exp("ibb.open"), Exp("ibb.data"), Exp("ibb.close"), Exp("ibb.msgdata")}}
+Singles == {SeqSc(c, 0, <<l>>) : l \in SingleLabels, c \in StateCfgs}
+NoListen == {SeqSc("nolisten", 0, <<l>>) : l \in {Exp("ibb.open"), Exp("ibb.data"), Exp("ibb.close"), Exp("ibb.msgdata")}}
 (* every item twice in a row (unmatched both times in the empty table) + the helper call *)
-Repeats == UNION {{SeqSc(c, Again(f, l)) : l \in Probes(f) \cap SingleLabels, c \in StateCfgs} : f \in Families}
-Stateful3 == UNION {{SeqSc(c, x[1] \o <<p>>) : x \in NonEmptySetups(f), p \in Probes(f), c \in StateCfgs} :
+Repeats == UNION {{SeqSc(c, 0, Again(f, l)) : l \in Probes(f) \cap SingleLabels, c \in StateCfgs} : f \in Families}
+Stateful3 == UNION {{SeqSc(c, Len(x[1]), x[1] \o <<p>>) : x \in NonEmptySetups(f), p \in Probes(f), c \in StateCfgs} :
                     f \in Stateful}
 (* the same in every table state; the quick tier keeps the families whose handler and     *)
 (* helper share a lock-protected table with few probes (rcpt, ibb)                        *)
-RepFamilies == IF Quick THEN {"rcpt", "ibb"} ELSE Stateful
-StatefulRep == UNION {{SeqSc(c, x[1] \o Again(f, p)) : x \in NonEmptySetups(f), p \in Probes(f), c \in StateCfgs} :
+RepFamilies == Stateful
+StatefulRep == UNION {{SeqSc(c, Len(x[1]), x[1] \o Again(f, p)) : x \in NonEmptySetups(f), p \in Probes(f), c \in StateCfgs} :
                       f \in RepFamilies}
 (* after a stanza that a handler survived, the serve loop must still be usable *)
-Pairs == {SeqSc("listen", <<s.lab, Exp("ping")>>) :
-            s \in {a \in Alphabet : \E tg \in Targets : a.lab = Lab(tg, tg.types[1], "expected") \/ a.lab = Lab(tg, tg.types[1], ":empty")}}
-Singles2 == {SeqSc("listen", <<s.lab>>) : s \in Alphabet2}
+Pairs == {SeqSc("listen", 0, <<s.lab, Exp("ping")>>) :
+            s \in {a \in Alphabet : a.lab # Exp("ping") /\      \* (ping, ping) is one of Repeats
+                      (\E tg \in Targets : a.lab = Lab(tg, tg.types[1], "expected") \/ a.lab = Lab(tg, tg.types[1], ":empty"))}}
+Singles2 == {SeqSc("listen", 0, <<s.lab>>) : s \in Alphabet2}
 SeqScenarios == Singles \cup NoListen \cup Repeats \cup Stateful3 \cup StatefulRep \cup Pairs
+PairsOf(f) == Cardinality(NonEmptySetups(f)) * Cardinality(Probes(f)) * Cardinality(StateCfgs)
+RECURSIVE SumPairs(_)
+SumPairs(F) == IF F = {} THEN 0 ELSE LET f == CHOOSE g \in F : TRUE IN PairsOf(f) + SumPairs(F \ {f})
+(* the classes are pairwise disjoint (C09_ClassesDisjoint): tools enumerate them one by one  *)
+(* instead of normalising the big union                                                      *)
+SeqClasses == <<Singles, NoListen, Repeats, Stateful3, StatefulRep, Pairs>>
+(* their number (the facts C09_EveryShapeInEveryState, C09_EveryConfigCrossed and               *)
+(* C09_ClassesDisjoint establish the cardinalities used here)                                  *)
+NSeqScenarios == 2 * Cardinality(SingleLabels) * Cardinality(StateCfgs) + Cardinality(NoListen)
+                 + SumPairs(Stateful) + SumPairs(RepFamilies) + Cardinality(Pairs)
 
 (* design-level facts about the generator (checked by TLC as ASSUMEs of MCPeerInput)   *)
 C09_EveryTableStateReachable == \A f \in Stateful : TableStates(f) \subseteq ReachedStates(f)
@@ -507,32 +521,44 @@ AppNames == {"app:hist_fetch", "app:rcpt_send", "app:rcpt_elem", "app:muc_join",
 MaxItems == 7      \* the longest scenario (thorough tier: setup of 4 steps, a probe twice, a helper call)
 (* every item of every sequence is a known stanza or application action: the sequences are    *)
 (* built from single labels and probes (labels by definition), setups, helper calls, and the  *)
-(* few hand-picked labels of NoListen / Pairs                                                 *)
+(* few hand-picked labels of NoListen / Pairs (the first item of a pair is a label of the      *)
+(* alphabet by definition)                                                                    *)
+SetupItems == UNION {UNION {{x[1][i] : i \in 1..Len(x[1])} : x \in SetupsOK(f, Depth(f))} : f \in Stateful}
 C09_ItemsKnown ==
-  LET L == Labels \cup AppNames IN
-  /\ \A f \in Stateful : \A x \in SetupsOK(f, Depth(f)) :
-        /\ Len(x[1]) + Len(Again(f, "p")) <= MaxItems
-        /\ \A i \in 1..Len(x[1]) : x[1][i] \in L
+  /\ SetupItems \subseteq (Labels \cup AppNames)
+  /\ \A f \in Stateful : \A x \in SetupsOK(f, Depth(f)) : Len(x[1]) + Len(Again(f, "p")) <= MaxItems
   /\ \A f \in Families : \A i \in 1..Len(FamCall(f)) : FamCall(f)[i] \in AppNames
-  /\ \A sc \in NoListen \cup Pairs : \A i \in 1..Len(sc.items) : sc.items[i] \in Labels
+  /\ {Exp("ping"), Exp("ibb.open"), Exp("ibb.data"), Exp("ibb.close"), Exp("ibb.msgdata")} \subseteq Labels
+  /\ \A sc \in NoListen \cup Pairs : sc.items[Len(sc.items)] \in {Exp("ping"), Exp("ibb.open"), Exp("ibb.data"), Exp("ibb.close"), Exp("ibb.msgdata")}
   /\ StateCfgs \subseteq Cfgs
 (* every (registered target, shape) pair occurs in a sequence, in every table state of its    *)
 (* handler and in every configuration: the stateful part has exactly one scenario per         *)
 (* (configuration, non-empty setup, probe) triple                                             *)
-PairsOf(f) == Cardinality(NonEmptySetups(f)) * Cardinality(Probes(f)) * Cardinality(StateCfgs)
 C09_EveryShapeInEveryState ==
-  /\ Cardinality(Stateful3) = PairsOf("ibb") + PairsOf("hist") + PairsOf("rcpt") + PairsOf("muc")
+  LET S3 == Stateful3 IN
+  /\ Cardinality(S3) = SumPairs(Stateful)
+  /\ \A sc \in S3 : sc.setup = Len(sc.items) - 1
   /\ \A f \in Stateful : LET P == Probes(f) IN
         \A tg \in {t \in Targets : t.fam = f} : \A v \in Top(tg.pl) : Lab(tg, tg.types[1], v[1]) \in P
+(* the classes of scenarios are pairwise disjoint - Singles: one item, setup 0, state          *)
+(* configurations; NoListen: configuration "nolisten"; Repeats: setup 0, the first two items   *)
+(* equal; Pairs: two different items, setup 0; Stateful3 / StatefulRep: setup > 0, the item     *)
+(* after the setup once / twice - and StatefulRep is complete for its families                 *)
+C09_ClassesDisjoint ==
+  LET SR == StatefulRep IN
+  /\ \A sc \in Pairs : Len(sc.items) = 2 /\ sc.items[1] # sc.items[2]
+  /\ Cardinality(SR) = SumPairs(RepFamilies)
+  /\ \A sc \in SR : sc.setup > 0 /\ sc.setup <= Len(sc.items) - 2 /\ sc.items[sc.setup + 1] = sc.items[sc.setup + 2]
 C09_EveryTargetCovered ==
   LET L == SingleLabels IN \A tg \in Targets : \A i \in 1..Len(tg.types) : Lab(tg, tg.types[i], "expected") \in L
 (* the handler configuration is crossed with the whole grammar: every item alone, and twice   *)
 (* in a row followed by the helper call of its handler, in every configuration                *)
 C09_EveryConfigCrossed ==
   LET N == Cardinality(SingleLabels) * Cardinality(StateCfgs)
+      R == Repeats
   IN /\ Cardinality(Singles) = N
-     /\ Cardinality(Repeats) = N
-     /\ \A sc \in Repeats : Len(sc.items) >= 2 /\ sc.items[1] = sc.items[2]
+     /\ Cardinality(R) = N
+     /\ \A sc \in R : Len(sc.items) >= 2 /\ sc.items[1] = sc.items[2]
      /\ \A f \in Stateful : FamCall(f) # <<>>
 (* the local state of the extension is crossed with the peer's input: for both carriers a     *)
 (* setup reaches the bytestream with unflushed bytes, every probe of the handler follows it   *)
